@@ -139,6 +139,33 @@ def native_clause_env(contract, args, result=None):
     return env
 
 
+import ast as _ast
+
+
+def native_eval(clause, env, pre_env=None):
+    """Evaluate a clause natively. `old(e)` denotes the value of e in the pre-state: e is evaluated in pre_env (an environment built
+    from a deep copy of the arguments taken before the call)."""
+    src = clause.strip()
+    if src.startswith("lemma:"):
+        src = src[6:].strip()
+    if pre_env is None or "old(" not in src:
+        return eval(src, env)
+    tree = _ast.parse(src, mode="eval")
+    olds = {}
+
+    class R(_ast.NodeTransformer):
+        def visit_Call(self, node):
+            if isinstance(node.func, _ast.Name) and node.func.id == "old" and len(node.args) == 1:
+                name = "_old_%d" % len(olds)
+                olds[name] = eval(compile(_ast.Expression(body=node.args[0]), "<old>", "eval"), pre_env)
+                return _ast.copy_location(_ast.Name(id=name, ctx=_ast.Load()), node)
+            return self.generic_visit(node)
+    tree = _ast.fix_missing_locations(R().visit(tree))
+    env2 = dict(env)
+    env2.update(olds)
+    return eval(compile(tree, "<clause>", "eval"), env2)
+
+
 class _Timeout(Exception):
     pass
 
@@ -228,7 +255,9 @@ def _replay_obligation(contract, agg_ob, pid):
                 return out
         import inspect
         sig_params = list(inspect.signature(contract.fn).parameters)
-        call_args = {k: v for k, v in copy.deepcopy(args).items() if k in sig_params}
+        pre_env = native_clause_env(contract, copy.deepcopy(args))
+        # the function runs on `args` itself (mutable arguments are modified in place; clauses see them after the call)
+        call_args = {k: v for k, v in args.items() if k in sig_params}
         raised = None
         result = None
         try:
@@ -242,17 +271,17 @@ def _replay_obligation(contract, agg_ob, pid):
             spec = [w for (exc, w) in contract.raises if isinstance(raised, exc)]
             if not spec:
                 problems.append("raised %s which the contract does not allow" % type(raised).__name__)
-            elif not any(w is None or eval(w, env) for w in spec):
+            elif not any(w is None or native_eval(w, pre_env, pre_env) for w in spec):
                 problems.append("raised %s outside its specified condition" % type(raised).__name__)
         else:
             for exc, w in contract.raises:
-                if w is not None and eval(w, env):
+                if w is not None and native_eval(w, pre_env, pre_env):
                     problems.append("did not raise %s although (%s) holds" % (exc.__name__, w))
-            for i, cl in enumerate(contract.ensures):
+            for i, cl in enumerate(contract.ensures + contract.variant_ensures.get(agg_ob["variant"], [])):
                 if cl.startswith("lemma:"):
                     continue
                 try:
-                    ok = eval(cl, env)
+                    ok = native_eval(cl, env, pre_env)
                 except NotImplementedError:
                     continue   # proof-only clause (ghost terms)
                 except Exception as e:
